@@ -333,6 +333,7 @@ pub fn scenarios(thorough: bool) -> Vec<Scenario> {
     v.push(emptied_scenario("pair-array-emptied-in-two-steps-vs-insert", 2, if thorough { 4 } else { 3 }, &[]));
     // depth 2 in both tiers: every pair of operations from every prepared state
     v.extend(cross_scenarios_depth(2));
+    v.extend(combo_scenarios(thorough));
     v
 }
 
